@@ -133,7 +133,8 @@ def access_tokens(rng, v, start, count, stride, memtok, k, flex, form=None, buf=
                 # vector layout: split nel into count*blocklen
                 bl = rng.choice([d for d in range(1, nel + 1) if nel % d == 0])
                 cnt = nel // bl
-                buf = 'v %d %d %d' % (cnt, bl, bl + rng.below(3))
+                # 'r': the same layout handed over as bufcount = cnt instances of a RESIZED contiguous type
+                buf = '%s %d %d %d' % (rng.choice(['v', 'v', 'r']), cnt, bl, bl + rng.below(3))
             else:
                 buf = 'n'
     else:
